@@ -62,6 +62,11 @@ else:
 # our checks against the change, in /repo
 results = {}
 if meta.get("confirmed") or "--force" in extra:
+    # /repo is patched only while this lock is held; anything else that builds from /repo takes it too
+    # (flock /tmp/repo.lock ./check …)
+    import fcntl
+    lockf = open("/tmp/repo.lock", "w")
+    fcntl.flock(lockf, fcntl.LOCK_EX)
     st = subprocess.run("git -C /repo status --porcelain", shell=True, capture_output=True, text=True).stdout.strip()
     assert not st, "/repo not clean: " + st
     subprocess.run("git -C /repo apply %s" % diff, shell=True, check=True)
@@ -89,6 +94,7 @@ if meta.get("confirmed") or "--force" in extra:
             print(p, "exit", r.returncode, lines, json.dumps(rep)[:400] if rep else "")
     finally:
         subprocess.run("git -C /repo checkout -- .", shell=True, check=True)
+        fcntl.flock(lockf, fcntl.LOCK_UN)
 meta["our_checks"] = results
 meta["caught_by"] = [p for p, r in results.items() if r["exit"] != 0]
 d = "/verif/seeded/%s_%s" % (prop, lab)
